@@ -35,3 +35,32 @@ Theorem C04_dopri5_budget_bounds_work :
     (nstep (r_stats r) <= p_max_steps P + 1)%N.
 Proof. intros. eapply (proj1 (loop_budget O P f xend posneg hmax cb kern fuel s r H0 H1)). Qed.
 Print Assumptions C04_dopri5_budget_bounds_work.
+
+(* ---------------- DOP853 / RK23: the same mechanism ---------------- *)
+Require IVP.model.Dop853 IVP.proofs.Dop853Real IVP.proofs.Dop853Protocol IVP.model.Rk23 IVP.proofs.Rk23Real.
+
+Theorem C04_dop853_reject_shrinks :
+  forall (P : Dop853.params) (h err : R),
+    (0 < Dop853.p_scale_min P)%R -> (0 < Dop853.p_safety P)%R -> (Dop853.p_scale_min P <= 1)%R ->
+    (Dop853.p_safety P <= 1)%R -> (0 <= Dop853.expo1 Rops P)%R -> (1 < err)%R ->
+    (Rabs (Dop853.hnew_reject Rops P h err) <= Rabs h)%R.
+Proof. intros; eapply Dop853Real.hnew_reject_le; eauto. Qed.
+Print Assumptions C04_dop853_reject_shrinks.
+
+Theorem C04_dop853_budget_bounds_work :
+  forall (F : Type) (O : Ops F) (H : Type) (P : Dop853.params) f xend posneg hmax
+         (cb : H -> F -> F -> list F -> option (list F * F * F) -> H * flag F * list F) kern fuel s r,
+    (nstep (Dop853.s_stats s) <= Dop853.p_max_steps P + 1)%N ->
+    Dop853.loop O P f xend posneg hmax cb kern fuel s = Some r ->
+    (nstep (Dop853.r_stats r) <= Dop853.p_max_steps P + 1)%N.
+Proof. intros. eapply (proj1 (Dop853Protocol.loop_budget O P f xend posneg hmax cb kern fuel s r H0 H1)). Qed.
+Print Assumptions C04_dop853_budget_bounds_work.
+
+(* RK23 (after "fix: RK23 stops with StepSizeTooSmall ... and shrinks the step on a NaN error estimate", F6):
+   whatever the error estimate, the rejection factor lies in (0, 1] *)
+Theorem C04_rk23_reject_factor :
+  forall (P : Rk23.params) (factor : R),
+    (0 < Rk23.p_scale_min P)%R -> (Rk23.p_scale_min P <= 1)%R ->
+    (0 < Rmax (Rmin factor 1) (Rk23.p_scale_min P) <= 1)%R.
+Proof. intros P factor H0 H1. exact (Rk23Real.reject_factor_le1 P H0 H1 factor). Qed.
+Print Assumptions C04_rk23_reject_factor.
